@@ -139,16 +139,21 @@ def counter(F, R):
     g = F.one(r'^inflight::CounterGuard::new$')
     incs = list(g.calls_to(r'^inflight::CounterInner::inc$'))
     ok = False
+    size_field = '0'
     for bi, t in incs:
         a = leaves_args(Origin(g).of_operand(t['args'][1]))
         aggs = agg_sites(g, r'^inflight::CounterGuard$')
         for xb, j, s in aggs:
-            a2 = leaves_args(Origin(g).of_operand(s['rv']['fields'][0]))
-            ok = bool(a) and a == a2
+            # the field that keeps the size (first field of the tuple struct, or a named field after a refactoring)
+            for fi_, fop_ in enumerate(s['rv']['fields']):
+                a2 = leaves_args(Origin(g).of_operand(fop_))
+                if bool(a) and a == a2:
+                    ok = True
+                    size_field = (s['rv'].get('names') or [str(i_) for i_ in range(len(s['rv']['fields']))])[fi_]
     R.ob('C12.counter', 'L3|guard stores the size given to inc', ok, 'CounterGuard::new must inc(size) and keep the same size for dec')
     d = F.one(r'^<inflight::CounterGuard as std::ops::Drop>::drop$')
     decs = list(d.calls_to(r'^inflight::CounterInner::dec$'))
-    ok = any(apath(d, t['args'][1]) and apath(d, t['args'][1])[-1] == '0' for bi, t in decs)
+    ok = any(apath(d, t['args'][1]) and apath(d, t['args'][1])[-1] == size_field for bi, t in decs)
     R.ob('C12.counter', 'L3|drop calls dec(self.0)', ok, 'Drop for CounterGuard must dec with the stored size')
 
 
